@@ -112,7 +112,7 @@ pub fn run(cfg: &RunCfg) -> PropRun {
     let mut run = PropRun::default();
     run.rule = "pairs (A, B) of Range values: leaves are 1..3 alternatives of interval texts (every inclusive/exclusive/unbounded combination, exact, caret/tilde/x/hyphen/partial-upper sugar) over a sorted pool of 3..8 versions drawn from <=5 neighbouring tuples x tags {release,-0,-a,-a.0,-b}; operands are leaves or results of one earlier intersect/difference. Oracle: pointwise on ~40 probes per bound version: within(A∩B) == within(A)&&within(B) on the interval models read from Display; releases: sat equality; prereleases: the two implications of the statement; None => exact emptiness of the overlap; A∩B vs B∩A and A∩A vs A pointwise. Non-trivial = operands share a bound version or an endpoint of one lies within the other; distinct by the two operand texts.".into();
     run.assumptions = vec!["bounds membership of a Range value is read from its canonical Display".into()];
-    let out = campaign(cfg, ID, "pairs", cfg.pick(200_000, 3_000_000), || pair_strategy(1, 3), check_pair);
+    let out = campaign(cfg, ID, "pairs", cfg.pick(400_000, 4_000_000), || pair_strategy(1, 3), check_pair);
     run.absorb(out);
     let tie = run.stats.class_count("tie(shared bound version)");
     let all = tie + run.stats.class_count("endpoint-inside-other") + run.stats.class_count("disjoint-or-unrelated");
